@@ -75,7 +75,10 @@ class PaginationBorders(Contract):
     models = [PolarsModel(), StrModel()]
     handlers = {"deepcopy": h_deepcopy, "new:BroadcastValue": new_bv}
     summaries = {"BroadcastValue.update_cell": update_cell_summary}
-    truth_vars = {"has_column_headers", "has_footnote_on_page", "has_source_on_page", "footnote_as_table_on_last", "source_as_table_on_last", "has_border_top"}
+    truth_vars = {"has_column_headers", "has_footnote_on_page", "has_source_on_page", "footnote_as_table_on_last", "source_as_table_on_last",
+                  "has_border_top", "footnote_table_on_page", "source_table_on_page"}
+    variants = ["first_notlast", "middle", "last_notfirst", "only_page"]
+    loops_optional = {2, 3, 4}        # which of the three column loops is reachable depends on the page kind (variant)
     merge_ifs = True
     max_paths = 20000
     frame = "strict"
@@ -102,8 +105,9 @@ class PaginationBorders(Contract):
         comp = DictObj(items={}, fresh=False)
         comp.tag = "component_borders"
         compref = c.alloc(comp)
-        first, last = c.fresh("is_first_page", T.Bool), c.fresh("is_last_page", T.Bool)
-        page = c.alloc(RecObj("PageContext", {"table_attrs": tattrs, "data": page_df, "is_first_page": first, "is_last_page": last,
+        fl = {"first_notlast": (True, False), "middle": (False, False), "last_notfirst": (False, True), "only_page": (True, True)}[c.variant]
+        first, last = z3.BoolVal(fl[0]), z3.BoolVal(fl[1])
+        page = c.alloc(RecObj("PageContext", {"table_attrs": tattrs, "data": page_df, "is_first_page": fl[0], "is_last_page": fl[1],
                                               "component_borders": compref}, fresh=False))
         # document
         body_bf = c.fresh("body_border_first", T.Matrix(T.Str))
@@ -175,7 +179,7 @@ class PaginationBorders(Contract):
             return If(r == 0, If(body_first_here, body_first(col), If(page_first, v["pbf"].payload, user_top(r, col))), user_top(r, col))
 
         def bottom(r, col):
-            mid = And(Not(v["last"]), body_bl_set, Not(Or(fn_on, src_on)))
+            mid = And(Not(v["last"]), body_bl_set, Not(Or(And(fn_on, fn_tab), And(src_on, src_tab))))
             end = And(v["last"], truthy_str(v["pbl"]), Not(Or(fn_tab_last, src_tab_last)))
             return If(r == h - 1, If(mid, v["bl"].cell(IntVal(0), IntVal(0)), If(end, v["pbl"].payload, user_bottom(r, col))), user_bottom(r, col))
         return dict(top=top, bottom=bottom, fn_on=fn_on, src_on=src_on, fn_tab_last=fn_tab_last, src_tab_last=src_tab_last,
@@ -257,9 +261,9 @@ class PaginationBorders(Contract):
         fn_none, fn_txt, fn_tab = v["fn"]
         src_none, src_txt, src_tab = v["src"]
         style_mid = v["bl"].cell(IntVal(0), IntVal(0))
-        want_src = Or(And(Not(v["last"]), sp["body_bl_set"], Or(sp["fn_on"], sp["src_on"]), sp["src_on"], src_tab),
+        want_src = Or(And(Not(v["last"]), sp["body_bl_set"], sp["src_on"], src_tab),
                       And(v["last"], truthy_str(v["pbl"]), Or(sp["fn_tab_last"], sp["src_tab_last"]), sp["src_on"], src_tab))
-        want_fn = Or(And(Not(v["last"]), sp["body_bl_set"], Or(sp["fn_on"], sp["src_on"]), Not(And(sp["src_on"], src_tab)), sp["fn_on"], fn_tab),
+        want_fn = Or(And(Not(v["last"]), sp["body_bl_set"], Not(And(sp["src_on"], src_tab)), sp["fn_on"], fn_tab),
                      And(v["last"], truthy_str(v["pbl"]), Or(sp["fn_tab_last"], sp["src_tab_last"]), Not(And(sp["src_on"], src_tab)), sp["fn_on"], fn_tab))
         style = If(v["last"], v["pbl"].payload, style_mid)
         psrc = comp.present.get("source", True) if "source" in comp.items else False
@@ -269,9 +273,10 @@ class PaginationBorders(Contract):
         cl["C07.footnote_row_closes_table_when_shown_as_table"] = Implies(v["h"] > 0, And(to_z3(pfn) == want_fn,
                                                                           Implies(want_fn, to_z3(comp.items.get("footnote", lit(""))) == style)))
         # the property's clause that has no carrier today: a page break after a PARAGRAPH footnote/source leaves no row to carry the border
+        r0, c0 = z3.Ints("r0 c0")
         cl["C07.break_bottom.some_row_carries_body_border_last"] = Implies(
             And(v["h"] > 0, Not(v["last"]), sp["body_bl_set"]),
-            Or(Not(Or(sp["fn_on"], sp["src_on"])), want_src, want_fn))
+            Or(want_src, want_fn, ForAll([c0], Implies(And(0 <= c0, c0 < v["w"]), mb.cell((v["h"] - 1) % mb.rows, c0 % mb.cols) == style_mid))))
         return cl
 
 
